@@ -41,8 +41,8 @@ DIRECTED = [
     "stel a = [1, 2, 3]; lengte(a)", "stel a = [1.5, 2.5, 3.5]; lengte(a) + 1", "stel s = \"é\"; s[0] = \"ab\"; [s, lengte(s)]", "stel s = \"ab\"; s[0] = \"é\"; [s, lengte(s)]",
     "stel a = 0.0 / 0.0; stel b = 0.0 / 0.0; [a < b, b < a, a <= b, a >= b, a > b]", "stel l = [0.0 / 0.0, 0.0 / 0.0, 0.0 / 0.0]; [l[0] < l[1], l[1] < l[2], l[2] < l[0], l[0] >= l[2]]",
     "functie m(x, y) { als x < y { x } anders { y } } [m(0.0 / 0.0, 1.0), m(1.0, 0.0 / 0.0), m(0.0 / 0.0, 0.0 / 0.0)]",
-    "functie kwadraat(n) { n * n }; [kwadraat(2), 1.5, \"klaar\"]; stel laatste = kwadraat(4)", "1.5 + 0.0; functie f() { 2 } stel u = f(); stel v = f()", "\"de waarde\"; functie leeg() { } stel a = leeg(); stel b = leeg()",
-    "[0.5 + 0.25, [\"x\"]]; functie g(n) { [n] } stel p = g(1); stel q = g(2)",
+    "functie kwadraat(n) { n * n }; [kwadraat(2), 1.5, \"klaar\"]; stel laatste = kwadraat(4)", "functie f() { 2 }; 1.5 + 0.0; stel u = f(); stel v = f()", "functie leeg() { }; \"de waarde\"; stel a = leeg(); stel b = leeg()",
+    "functie g(n) { [n] }; [0.5 + 0.25, [\"x\"]]; stel p = g(1); stel q = g(2)",
     "functie f(a, b, c, d, e) { [a, b, c, d, e] } f()", "functie f(a, b, c) { stel x = x; stel y = y; [a, b, c, x, y] } f(1)",
     "functie g(n) { als n > 0 { antwoord g(n - 1) } stel diep = diep; [n, diep] } g(30)", "[11, 22, 33, 44, 55, 66, 77, 88, 99, 110, 121, 132]",
     "functie vul(a, b, c, d, e, f) { [a, b, c, d, e, f] } vul(\"a\", [1], 2.5, 4, ja, 6)", "functie h() { stel p = p; stel q = [q]; als ja { stel r = r; [p, q, r] } } h()",
@@ -66,6 +66,8 @@ def run(ctx, log):
     base = vlib.nlh("eval", lines, tag="c16b")
     for s, o in zip(progs, base):
         ctx.seen(s, nontrivial="STEPS 0" not in o)
+        if o.startswith("PANIC") or o.startswith("CRASH"):
+            ctx.violate("an evaluation read released memory or crashed: what it answers depends on the state of the allocator, not on its text", source=s, observed=o[:300])
 
     def compare(label, got, order=None):
         n = 0
